@@ -18,6 +18,8 @@ type c09RLWECtx struct {
 	sk     *rlwe.SecretKey
 	evk    *rlwe.MemEvaluationKeySet
 	swk    *rlwe.EvaluationKey
+	// swkLow: a switching key generated below the maximum level (legal: EvaluationKeyParameters.LevelQ)
+	swkLow *rlwe.EvaluationKey
 }
 
 func c09RLWE(ctx *core.RunCtx) *c09Scheme {
@@ -50,7 +52,9 @@ func c09RLWE(ctx *core.RunCtx) *c09Scheme {
 				}
 			}
 			evk := rlwe.NewMemEvaluationKeySet(kgen.GenRelinearizationKeyNew(sk), kgen.GenGaloisKeysNew(uniq, sk)...)
-			return &c09RLWECtx{params: p, sk: sk, evk: evk, swk: kgen.GenEvaluationKeyNew(sk, sk2)}
+			lowQ, lowP := p.MaxLevelQ()-1, p.MaxLevelP()
+			low := kgen.GenEvaluationKeyNew(sk, sk2, rlwe.EvaluationKeyParameters{LevelQ: &lowQ, LevelP: &lowP})
+			return &c09RLWECtx{params: p, sk: sk, evk: evk, swk: kgen.GenEvaluationKeyNew(sk, sk2), swkLow: low}
 		})
 		if x, ok := c.(*c09RLWECtx); ok {
 			cc = x
@@ -97,6 +101,9 @@ func c09RLWE(ctx *core.RunCtx) *c09Scheme {
 		}},
 		{name: "ApplyEvaluationKey", op1: []int{vNone}, needDeg1: true, deg: degOne, call: func(e any, a *rlwe.Ciphertext, b any, k int, o *rlwe.Ciphertext) error {
 			return ev(e).ApplyEvaluationKey(a, cc.swk, o)
+		}},
+		{name: "ApplyEvaluationKey(key of lower level)", op1: []int{vNone}, needDeg1: true, deg: degOne, call: func(e any, a *rlwe.Ciphertext, b any, k int, o *rlwe.Ciphertext) error {
+			return ev(e).ApplyEvaluationKey(a, cc.swkLow, o)
 		}},
 		{name: "Relinearize", op1: []int{vNone}, deg: degOne, call: func(e any, a *rlwe.Ciphertext, b any, k int, o *rlwe.Ciphertext) error {
 			if a.Degree() != 2 {
